@@ -10,8 +10,8 @@ import (
 
 type vRefKey struct {
 	time, pred, other uint64
-	del                bool
-	ds                 uint32
+	del               bool
+	ds                uint32
 }
 
 // VerifC03OutKeys: GetRelatedAtTime (outgoing direction) over an ARBITRARY
